@@ -61,8 +61,11 @@ def _alarm(signum, frame):
     raise WallAlarm()
 
 
-def run_case(machine, case, wall_s=RUN_WALL_S):
-    """Run one case with a wall-clock alarm. Returns result dict."""
+def run_case(machine, case, wall_s=None):
+    """Run one case with a CPU-time alarm. Returns result dict."""
+    if wall_s is None:
+        # a machine whose single run legitimately does a lot (a full crash-point sweep) says so
+        wall_s = getattr(machine, 'RUN_CPU_S', RUN_WALL_S)
     K.install_seams()
     # the alarm counts this process's CPU time (user + system), not wall time: a run that spins has burnt it,
     # a run that merely shares the machine with other jobs has not (all sleeps of the engine are simulated)
@@ -97,9 +100,10 @@ def _worker_batch(args):
     # the engine logs a warning for every I/O error it maps to a BASIC error
     import logging
     logging.disable(logging.CRITICAL)
-    faulthandler.dump_traceback_later(RUN_WALL_S * len(indices) + 120, exit=True)
+    machine = load_machine(mname)
+    # last resort against a run that blocks without burning CPU: wall time, generous
+    faulthandler.dump_traceback_later(4 * getattr(machine, 'RUN_CPU_S', RUN_WALL_S) * len(indices) + 300, exit=True)
     try:
-        machine = load_machine(mname)
         agg = {
             'runs': 0, 'stats': collections.Counter(), 'faults': collections.Counter(),
             'probes': collections.Counter(), 'states': set(), 'status': collections.Counter(),
